@@ -731,7 +731,7 @@ def part_fit(ctx, impl, rng, quick):
                     continue
                 plan.append((algo, 'bipartite', r, c, t, 'exh_biadj_%dx%d' % (r, c), {}, fb))
     # structured random x option space
-    reps = dict(louvain=350, leiden=250, propagation=350, kcenters=110) if quick else dict(louvain=3000, leiden=2500, propagation=3000, kcenters=700)
+    reps = dict(louvain=300, leiden=220, propagation=300, kcenters=100) if quick else dict(louvain=3000, leiden=2500, propagation=3000, kcenters=700)
     for algo, cnt in reps.items():
         for _ in range(cnt):
             kinds = ('undirected', 'directed', 'bipartite')
